@@ -65,6 +65,8 @@ func (vc *VC) mapLen(st *State, m Val) string {
 	base := "M:" + typeKey(mt)
 	l := vc.heapGet(st, base+".len", arraySort(sortRef, sortIdx))
 	t := sel(l, m.S)
+	// a map's length is never negative (global fact about the len component of the map heap)
+	vc.sc.assert(sx("bvsge", t, i64(0)))
 	// nil map has length 0
 	return ite(eq(m.S, "0"), i64(0), t)
 }
@@ -253,6 +255,8 @@ func (vc *VC) rangeNext(fr *Frame, st *State, ins *ssa.Next) Val {
 				d := vc.heapGet(st, base+".dom", arraySort(sortRef, arraySort(ks, sortBool)))
 				none := fmt.Sprintf("(forall ((k!q %s)) (! (not (select (select %s %s) k!q)) :pattern ((select (select %s %s) k!q))))", ks, d, it.X.S, d, it.X.S)
 				vc.assume(st, implies(not(okv), none))
+				// ... and an empty map has length 0 (the first step of a range over a map of length > 0 succeeds)
+				vc.assume(st, implies(not(okv), eq(vc.mapLen(st, it.X), i64(0))))
 			}
 		}
 		if vis, has := st.ghost[name]; has && name != "" {
